@@ -73,9 +73,14 @@ impl Vars {
 pub fn declare_var(solver: &mut Solver, vars: &mut Vars, d: &VarDecl, name: Option<String>, shuffle_seed: u64) {
     match d.kind {
         VarKind::Interval => {
+            let (lo, hi) = if crate::config::WIDE_DECL.load(std::sync::atomic::Ordering::Relaxed) {
+                (d.lb().min(-2_000_000_000), d.ub().max(2_000_000_000))
+            } else {
+                (d.lb(), d.ub())
+            };
             let id = match name {
-                Some(n) => solver.new_named_bounded_integer(d.lb(), d.ub(), n),
-                None => solver.new_bounded_integer(d.lb(), d.ub()),
+                Some(n) => solver.new_named_bounded_integer(lo, hi, n),
+                None => solver.new_bounded_integer(lo, hi),
             };
             vars.ids.push(id);
             vars.lits.push(None);
@@ -238,6 +243,27 @@ pub struct Built {
     pub failed_at: Option<usize>,
 }
 
+/// C16 (`WIDE_DECL`): narrows the widely declared interval variables to the domains of the model by
+/// unary linear constraints; false if that makes the solver infeasible.
+fn narrow_wide(solver: &mut Solver, vars: &Vars, m: &Model) -> bool {
+    for (i, d) in m.vars.iter().enumerate() {
+        if d.kind != VarKind::Interval {
+            continue;
+        }
+        let x = vars.ids[i];
+        if solver.add_constraint(constraints::less_than_or_equals(vec![x.scaled(1)], d.ub())).post().is_err() {
+            return false;
+        }
+        // (a lower bound of i32::MIN is the declared one already and `-lb` is not representable)
+        if d.lb() > i32::MIN
+            && solver.add_constraint(constraints::less_than_or_equals(vec![x.scaled(-1)], -d.lb())).post().is_err()
+        {
+            return false;
+        }
+    }
+    true
+}
+
 /// Declares all variables, then posts the constraints in order, stopping at the first error.
 pub fn build(mut solver: Solver, m: &Model, named: bool, tagged: bool, style_seed: u64) -> Built {
     let mut vars = Vars { ids: vec![], lits: vec![] };
@@ -246,8 +272,25 @@ pub fn build(mut solver: Solver, m: &Model, named: bool, tagged: bool, style_see
         let name = if named { Some(format!("x{}", i)) } else { None };
         declare_var(&mut solver, &mut vars, d, name, r.next());
     }
+    let wide = crate::config::WIDE_DECL.load(std::sync::atomic::Ordering::Relaxed);
     let mut failed_at = None;
+    // only a linear first constraint is posted on the wide domains: its bounds propagation is one
+    // pass, while e.g. |x| = x or min(x, x) = y + 9 creep through the range value by value
+    let first_on_wide = wide && matches!(m.cons.first(), Some(Cons::LinLe(..)) | Some(Cons::LinEq(..)) | Some(Cons::LinNe(..)));
+    if wide && !first_on_wide {
+        let ok = narrow_wide(&mut solver, &vars, m);
+        assert!(ok, "narrowing before any constraint is posted cannot fail");
+    }
     for (i, c) in m.cons.iter().enumerate() {
+        if first_on_wide && i == 1 {
+            // Only the first constraint is posted on the wide domains (a single constraint cannot
+            // make bounds propagation creep through billions of values, two can: x < y and y < x);
+            // its propagator then sees each variable jump to the model's domain in one event.
+            if !narrow_wide(&mut solver, &vars, m) {
+                failed_at = Some(0);
+                break;
+            }
+        }
         let tag = if tagged { NonZero::new(i as u32 + 1) } else { None };
         let res = post_cons(&mut solver, &vars, c, Mode::Post, tag, r.next());
         if std::env::var_os("PHARNESS_EAGER").is_some() {
@@ -257,6 +300,9 @@ pub fn build(mut solver: Solver, m: &Model, named: bool, tagged: bool, style_see
             failed_at = Some(i);
             break;
         }
+    }
+    if first_on_wide && failed_at.is_none() && m.cons.len() == 1 && !narrow_wide(&mut solver, &vars, m) {
+        failed_at = Some(0);
     }
     Built { solver, vars, failed_at }
 }
